@@ -104,7 +104,9 @@ Definition bytes_okb (b : bytes) : bool := forallb (fun c => c <? 256) b.
 
 (* the element's names come back from the tables as they are *)
 Definition tag_canon (l : lang) (tg : tagname) : bool :=
-  tagname_eqb (fst (resolve_tag l (ev_name l tg))) tg && negb (is_embedded_name (ev_name l tg)).
+  tagname_eqb (fst (resolve_tag l (ev_name l tg))) tg.
+(* below the root, an element with one of the two embedded-document names would be skipped *)
+Definition tag_not_embedded (l : lang) (tg : tagname) : bool := negb (is_embedded_name (ev_name l tg)).
 Definition attrs_canon (l : lang) (attrs : list attr) : bool :=
   list_eqb attr_eqb (map (resolve_attr l) (map ev_attr attrs)) attrs.
 
@@ -142,7 +144,7 @@ Section Canon.
     match n with
     | NText b => text_canon up k rdone b
     | NElt tg attrs ch =>
-      tag_canon l tg && attrs_canon l attrs && (N.of_nat (List.length (mk_frame k rdone :: up)) <? WBXML_MAX_NESTING_DEPTH) &&
+      tag_canon l tg && tag_not_embedded l tg && attrs_canon l attrs && (N.of_nat (List.length (mk_frame k rdone :: up)) <? WBXML_MAX_NESTING_DEPTH) &&
       (negb (tag_binary tg) || negb (beq (tag_xml_name tg) s_Data)) &&
       (fix kids (rd : list node) (rest : list node) {struct rest} : bool :=
          match rest with
